@@ -46,7 +46,7 @@ def constant(vc):
         vc.check('post/exactly-max_attempts-items', r.times is not None and r.times == ma)
 
 
-@harness('C24', 'Constant.__init__', functions=[CQ + '.__init__'])
+@harness('C24', 'Constant.__init__', functions=[CQ + '.__init__'], native='contracts.native.c24:replay')
 def constant_init(vc):
     """ensures negative delay / negative max_attempts raise ValueError, otherwise fields stored unchanged"""
     from cassandra.policies import ConstantReconnectionPolicy
@@ -61,6 +61,23 @@ def constant_init(vc):
     else:
         vc.check('post/accepted-only-good-args', sym.not_(bad))
         vc.check('post/fields', sym.and_(self.attrs['delay'] == d, N.eq(self.attrs['max_attempts'], ma)))
+
+
+@harness('C24', 'Exponential.__init__', functions=['cassandra.policies.ExponentialReconnectionPolicy.__init__'], native='contracts.native.c24:replay')
+def exponential_init(vc):
+    """ensures a negative delay, max_delay < base_delay or a negative max_attempts raise ValueError; otherwise the three settings are stored exactly as
+    given - max_attempts in particular as None (unlimited), 0 (no attempt at all) or n, never one turned into another"""
+    from cassandra.policies import ExponentialReconnectionPolicy
+    b, m = vc.real('base_delay'), vc.real('max_delay')
+    ma = None if vc.ctx.branch(vc.bool('max_attempts_is_none').t) else vc.int('max_attempts')
+    self = vc.obj(ExponentialReconnectionPolicy)
+    kind, val = vc.call_catch('cassandra.policies.ExponentialReconnectionPolicy.__init__', self, b, m, ma)
+    bad = sym.or_(b < 0, m < 0, m < b, False if ma is None else ma < 0)
+    if kind == 'exc':
+        vc.check('raises/ValueError-only-on-bad-args', sym.and_(vc.exc_is(val, ValueError), bad))
+    else:
+        vc.check('post/accepted-only-good-args', sym.not_(bad))
+        vc.check('post/fields', sym.and_(self.attrs['base_delay'] == b, self.attrs['max_delay'] == m, N.eq(self.attrs['max_attempts'], ma)))
 
 
 def _exp(vc):
